@@ -1,0 +1,67 @@
+//go:build verif
+
+// Contracts for the commit frontier and the precommit ring buffer (property C02). See /verif/DESIGN.md.
+package store
+
+// spec_pbCount is the number of occupied slots of the ring buffer (the length of its abstract sequence).
+func spec_pbCount(b *precommitBuffer) int {
+	if b.full {
+		return len(b.buf)
+	}
+	if b.rpos <= b.wpos {
+		return b.wpos - b.rpos
+	}
+	return len(b.buf) - (b.rpos - b.wpos)
+}
+
+// spec_pbWF is the scalar part of the representation invariant (newPrecommitBuffer establishes it for size > 0).
+func spec_pbWF(b *precommitBuffer) bool {
+	return len(b.buf) > 0 && len(b.buf) <= 1<<20 &&
+		0 <= b.rpos && b.rpos < len(b.buf) && 0 <= b.wpos && b.wpos < len(b.buf) &&
+		(!b.full || b.rpos == b.wpos)
+}
+
+//@ func (*precommitBuffer).freeSlots
+//@   requires spec_pbWF(b)
+//@   ensures free: r0 == len(b.buf) - spec_pbCount(b)
+//@   ensures range: 0 <= r0 && r0 <= len(b.buf)
+//@   assigns nothing
+
+//@ func (*precommitBuffer).put
+//@   divmod abstract
+//@   requires spec_pbWF(b)
+//@   requires elems: forall(k, 0, len(b.buf), b.buf[k] != nil)
+//@   ensures wf: spec_pbWF(b)
+//@   ensures full: old(b.full) ==> r0 == ErrBufferIsFull && spec_pbCount(b) == old(spec_pbCount(b)) && b.rpos == old(b.rpos) && b.wpos == old(b.wpos)
+//@   ensures push: !old(b.full) ==> r0 == nil && spec_pbCount(b) == old(spec_pbCount(b)) + 1 && b.rpos == old(b.rpos)
+//@   requires distinct: forall(k, 0, len(b.buf), forall(j, 0, len(b.buf), k != j ==> !sameobj(b.buf[k], b.buf[j])))
+//@   requires sep: forall(k, 0, len(b.buf), !sameobj(b.buf[k], b))
+//@   ensures last: !old(b.full) ==> b.buf[b.wpos].txID == txID && b.buf[b.wpos].alh == alh && b.buf[b.wpos].txOff == txOff && b.buf[b.wpos].txSize == txSize
+//@   ensures slot: !old(b.full) ==> b.wpos == (old(b.wpos) + 1) % len(b.buf)
+//@   ensures others: forall(k, 0, len(b.buf), (old(b.full) || k != b.wpos) ==> b.buf[k] == old(b.buf[k]) && b.buf[k].txID == old(b.buf[k].txID) && b.buf[k].alh == old(b.buf[k].alh) && b.buf[k].txOff == old(b.buf[k].txOff) && b.buf[k].txSize == old(b.buf[k].txSize))
+
+//@ func (*precommitBuffer).readAhead
+//@   divmod abstract
+//@   requires spec_pbWF(b)
+//@   requires elems: forall(k, 0, len(b.buf), b.buf[k] != nil)
+//@   ensures miss: (n < 0 || n >= spec_pbCount(b)) ==> err != nil
+//@   ensures hit: 0 <= n && n < spec_pbCount(b) ==> err == nil
+//@   ensures elem: 0 <= n && n < spec_pbCount(b) ==> txID == b.buf[(b.rpos+n+1)%len(b.buf)].txID && txOff == b.buf[(b.rpos+n+1)%len(b.buf)].txOff && txSize == b.buf[(b.rpos+n+1)%len(b.buf)].txSize
+//@   ensures elem_alh: 0 <= n && n < spec_pbCount(b) ==> alh == b.buf[(b.rpos+n+1)%len(b.buf)].alh
+//@   assigns nothing
+
+//@ func (*precommitBuffer).advanceReader
+//@   divmod abstract
+//@   requires spec_pbWF(b)
+//@   ensures wf: spec_pbWF(b)
+//@   ensures bad: (n <= 0 || n > old(spec_pbCount(b))) ==> r0 != nil && spec_pbCount(b) == old(spec_pbCount(b)) && b.rpos == old(b.rpos)
+//@   ensures ok: 0 < n && n <= old(spec_pbCount(b)) ==> r0 == nil && spec_pbCount(b) == old(spec_pbCount(b)) - n && b.wpos == old(b.wpos)
+//@   assigns b
+
+//@ func (*precommitBuffer).recedeWriter
+//@   divmod abstract
+//@   requires spec_pbWF(b)
+//@   ensures wf: spec_pbWF(b)
+//@   ensures bad: (n <= 0 || n > old(spec_pbCount(b))) ==> r0 != nil && spec_pbCount(b) == old(spec_pbCount(b)) && b.wpos == old(b.wpos)
+//@   ensures ok: 0 < n && n <= old(spec_pbCount(b)) ==> r0 == nil && spec_pbCount(b) == old(spec_pbCount(b)) - n && b.rpos == old(b.rpos)
+//@   assigns b
